@@ -175,6 +175,17 @@ def run_case(ctx, rng, kind, centered, n_dim, n_cov, n_ids, sel_mode,
     if custom_names and not late:
         # ... and names the dimensions afterwards
         model.set_dim_names(['dim %d' % c_ for c_ in range(n_dim)])
+    if not custom_names and rng.random() < 0.3:
+        # resetting names that were never customised changes nothing
+        feats['names_reset_to_default'] = True
+        ctx.count('names_reset_to_default')
+        try:
+            model.set_parameter_names(None)
+        except Exception as e:      # noqa
+            ctx.violation_exc('evaluation_raises', e,
+                              {'case': feats,
+                               'call': 'set_parameter_names(None)'}, feats)
+            return
     # ---- counts and names
     names = model.get_parameter_names()
     n_expected = npd * n_dim + len(sel) * n_cov
